@@ -208,17 +208,26 @@ func cov(ctx *hx.Ctx, o *Obs) {
 	}
 }
 
-// Corpus: replay files kept under corpus/<prop>/ are run first.
-func LoadCorpus(dir string) []*Case {
-	var out []*Case
+// Corpus: replay files kept under corpus/<prop>/ are run first (transaction cases and block-chain cases).
+func CorpusFiles(dir string) []string {
 	files, _ := filepath.Glob(filepath.Join(dir, "*.json"))
 	sort.Strings(files)
-	for _, f := range files {
-		if c := LoadReplay(f); c != nil {
-			out = append(out, c)
+	return files
+}
+
+func LoadCorpusAll(dir string) (txs []*Case, chains []*ChainCase) {
+	for _, f := range CorpusFiles(dir) {
+		raw, err := os.ReadFile(f)
+		if err != nil {
+			continue
+		}
+		if cc := LoadChainReplay(raw); cc != nil {
+			chains = append(chains, cc)
+		} else if c := LoadReplay(f); c != nil {
+			txs = append(txs, c)
 		}
 	}
-	return out
+	return
 }
 
 func LoadReplay(path string) *Case {
